@@ -1986,6 +1986,10 @@ def generic_partial_eq(ex, m, a, fr, dest):
 @model(r'<(.*) as Default>::default')
 def generic_default(ex, m, a, fr, dest):
     t = m.group(1)
+    if last_seg(t) in ('Arc', 'Rc') and re.search(r'(?:OnceCell|OnceLock)<', t):
+        return Agg('Arc', None, [OnceCellV()])
+    if last_seg(t) in ('OnceCell', 'OnceLock'):
+        return OnceCellV()
     if t in INT_BITS and t != 'bool':
         return 0
     if t == 'bool':
@@ -1999,6 +2003,89 @@ def generic_default(ex, m, a, fr, dest):
     if last_seg(t) == 'Duration':
         return Opaque('Duration')
     return NotImplemented
+
+
+# ============================================================================ write-once cells (tokio::sync::OnceCell, std::sync::OnceLock)
+class OnceCellV(Model):
+    """A cell that is set at most once; shared by reference like the real one (an Arc around it aliases it)."""
+    ty = 'OnceCell'
+
+    def __init__(self):
+        self.slot = [None]
+
+
+def _once_ref(c):
+    return Ref(c.slot, 0, False)
+
+
+@model(r'(?:tokio::sync::)?OnceCell::<.*>::new(?:_with)?|(?:std::sync::)?OnceLock::<.*>::new|(?:tokio::sync::)?OnceCell::<.*>::const_new')
+def once_new(ex, m, a, fr, dest):
+    c = OnceCellV()
+    if a and isinstance(a[0], Agg) and a[0].variant == 1:
+        c.slot[0] = a[0].fields[0]
+    return c
+
+
+@model(r'(?:tokio::sync::)?OnceCell::<.*>::get|(?:std::sync::)?OnceLock::<.*>::get')
+def once_get(ex, m, a, fr, dest):
+    c = deref(a[0])
+    return some(_once_ref(c)) if c.slot[0] is not None else none()
+
+
+@model(r'(?:tokio::sync::)?OnceCell::<.*>::initialized')
+def once_initialized(ex, m, a, fr, dest):
+    return deref(a[0]).slot[0] is not None
+
+
+@model(r'(?:tokio::sync::)?OnceCell::<.*>::set|(?:std::sync::)?OnceLock::<.*>::set')
+def once_set(ex, m, a, fr, dest):
+    c = deref(a[0])
+    if c.slot[0] is not None:
+        return err(a[1])
+    c.slot[0] = a[1]
+    return ok(UNIT)
+
+
+def _once_fill(ex, c, clo, fallible, is_async):
+    if c.slot[0] is not None:
+        r = _once_ref(c)
+        return ok(r) if fallible else r
+    v = ex.call_closure(clo, [])
+    if is_async:
+        if isinstance(v, ReadyFuture):
+            v = v.take(ex)
+        else:
+            p = ex.poll_coroutine(v)
+            if p.variant != 0:
+                raise Unsupported('OnceCell initialiser returned Pending')
+            v = p.fields[0]
+    if fallible:
+        if v.variant != 0:
+            return v
+        v = v.fields[0]
+    c.slot[0] = v
+    r = _once_ref(c)
+    return ok(r) if fallible else r
+
+
+@model(r'(?:tokio::sync::)?OnceCell::<.*>::(get_or_try_init|get_or_init)::<.*>')
+def once_get_or_init_async(ex, m, a, fr, dest):
+    c, clo = deref(a[0]), a[1]
+    fallible = m.group(1) == 'get_or_try_init'
+    return ReadyFuture(lambda: _once_fill(ex, c, clo, fallible, True))
+
+
+@model(r'(?:std::sync::)?OnceLock::<.*>::(get_or_try_init|get_or_init)::<.*>')
+def once_get_or_init(ex, m, a, fr, dest):
+    return _once_fill(ex, deref(a[0]), a[1], m.group(1) == 'get_or_try_init', False)
+
+
+@model(r'(?:std::result::)?Result::<&.*>::cloned|(?:std::result::)?Result::<&.*>::copied')
+def result_cloned(ex, m, a, fr, dest):
+    r = a[0]
+    if r.variant != 0:
+        return r
+    return ok(clone_value(ex, deref(r.fields[0])))
 
 
 # ============================================================================ tracing catch-all (all levels statically off)
